@@ -43,17 +43,22 @@ type engineDef struct {
 	name  string
 	props []string
 	race  bool // the properties demand race freedom: part of the workers run a race-detector build (DESIGN.md §2.11)
+	// The quick tier is a fixed amount of work, not a fixed amount of time: every worker slot runs this many
+	// seeds of its arithmetic progression (quickRuns on the plain build, quickRaceRuns on the race-detector
+	// build, which is several times slower per run). What a quick run explored, and hence its evidence file,
+	// is then the same on a fast, a slow and a busy machine; only its duration differs (DESIGN.md §2.12).
+	quickRuns, quickRaceRuns int
 }
 
 var engines = []engineDef{
-	{"bsp", []string{"C01"}, true},
-	{"logbatch", []string{"C06"}, true},
-	{"metricsim", []string{"C02", "C08", "C12"}, true},
-	{"spanlin", []string{"C10"}, true},
-	{"otlpretry", []string{"C14"}, false},
-	{"lifecycle", []string{"C15"}, true},
-	{"globalsim", []string{"C16"}, true},
-	{"promsim", []string{"C18"}, true},
+	{"bsp", []string{"C01"}, true, 20000, 4000},
+	{"logbatch", []string{"C06"}, true, 16000, 3200},
+	{"metricsim", []string{"C02", "C08", "C12"}, true, 6000, 500},
+	{"spanlin", []string{"C10"}, true, 30000, 7000},
+	{"otlpretry", []string{"C14"}, false, 40000, 0},
+	{"lifecycle", []string{"C15"}, true, 6000, 1400},
+	{"globalsim", []string{"C16"}, true, 28000, 5500},
+	{"promsim", []string{"C18"}, true, 20000, 4000},
 }
 
 // packages instrumented by simgen (import paths). One overlay serves every engine.
@@ -633,6 +638,12 @@ func explore(prop string, eng *engineDef, tier string) int {
 
 	nworkers := 12
 	budget := envFloat("VERIF_BUDGET_SEC", 45)
+	// quick: a fixed number of runs per worker slot (engineDef.quickRuns); the time limit is only a guard
+	// against a machine too slow to be useful. An explicit VERIF_BUDGET_SEC asks for the timed mode instead.
+	fixedWork := tier == "quick" && os.Getenv("VERIF_BUDGET_SEC") == ""
+	if fixedWork {
+		budget = envFloat("VERIF_QUICK_CAP_SEC", 900)
+	}
 	if tier == "thorough" {
 		nworkers = 16
 		budget = envFloat("VERIF_BUDGET_SEC", 900)
@@ -660,6 +671,7 @@ func explore(prop string, eng *engineDef, tier string) int {
 	var outs []string
 	var errs []error
 	var logs []string
+	cutShort := 0 // worker slots that the time limit stopped before their quota (fixed-work mode)
 	deadline := time.Now().Add(time.Duration(budget * float64(time.Second)))
 	for i := 0; i < nworkers; i++ {
 		wg.Add(1)
@@ -668,16 +680,28 @@ func explore(prop string, eng *engineDef, tier string) int {
 			// one slot = a sequence of worker processes over one arithmetic progression of seeds; a worker
 			// hands over to a fresh process when the goroutines leaked by aborted runs use too much memory
 			seed := base*100_000_000 + int64(i)
+			quota := 0 // runs this slot still has to do (fixed-work mode)
+			if fixedWork {
+				quota = eng.quickRuns
+				if i >= nworkers-nrace {
+					quota = eng.quickRaceRuns
+				}
+			}
 			for k := 0; ; k++ {
 				left := time.Until(deadline).Seconds()
 				if left < 1 && k > 0 {
+					if fixedWork {
+						outMu.Lock()
+						cutShort++
+						outMu.Unlock()
+					}
 					return
 				}
 				if left < 1 {
 					left = 1
 				}
 				out := filepath.Join(scratch, fmt.Sprintf("w%d-%d.jsonl", i, k))
-				sp := spec{Mode: "explore", SeedStart: seed, SeedStep: int64(nworkers), BudgetSec: left, Out: out, KeepOK: 1, Property: prop}
+				sp := spec{Mode: "explore", SeedStart: seed, SeedStep: int64(nworkers), MaxRuns: quota, BudgetSec: left, Out: out, KeepOK: 1, Property: prop}
 				log, err := worker(binOf(i >= nworkers-nrace), sp, 0, time.Duration(left*float64(time.Second))+5*time.Minute)
 				outMu.Lock()
 				outs = append(outs, out)
@@ -688,7 +712,21 @@ func explore(prop string, eng *engineDef, tier string) int {
 					return
 				}
 				_, sum, rerr := readResults(out)
-				if rerr != nil || sum == nil || !sum.Restart {
+				if rerr != nil || sum == nil {
+					return
+				}
+				if fixedWork {
+					quota -= sum.Runs
+					if quota <= 0 {
+						return
+					}
+					if !sum.Restart { // stopped by the time limit
+						outMu.Lock()
+						cutShort++
+						outMu.Unlock()
+						return
+					}
+				} else if !sum.Restart {
 					return
 				}
 				seed = sum.NextSeed
@@ -715,7 +753,14 @@ func explore(prop string, eng *engineDef, tier string) int {
 	groups := map[string]*group{}
 	raceRuns := 0
 	harnessTrouble := ""
-	for i := range outs {
+	// (workers finish in any order: aggregate in the order of their output names, so that the samples and
+	// the example seeds of a report do not depend on it)
+	order := make([]int, len(outs))
+	for i := range order {
+		order[i] = i
+	}
+	sort.Slice(order, func(a, b int) bool { return outs[order[a]] < outs[order[b]] })
+	for _, i := range order {
 		runs, sum, err := readResults(outs[i])
 		if errs[i] != nil || err != nil || sum == nil {
 			harnessTrouble = fmt.Sprintf("worker %d: %v %v\n%s", i, errs[i], err, logs[i])
@@ -774,7 +819,7 @@ func explore(prop string, eng *engineDef, tier string) int {
 					groups[key] = g
 				}
 				g.count++
-				if len(r.Tape) > 0 && (g.best == nil || tapeLen(r.Tape) < tapeLen(g.best.Tape)) {
+				if len(r.Tape) > 0 && (g.best == nil || tapeLen(r.Tape) < tapeLen(g.best.Tape) || tapeLen(r.Tape) == tapeLen(g.best.Tape) && r.Seed < g.best.Seed) {
 					g.best = r
 				}
 			}
@@ -891,6 +936,18 @@ func explore(prop string, eng *engineDef, tier string) int {
 		harnessTrouble = fmt.Sprintf("%d of %d runs exhausted the step budget (inconclusive)", inconclusive, agg.runs)
 	}
 	raceRunsLast = raceRuns
+	workModeLast = fmt.Sprintf("timed: every worker slot explores consecutive seeds of its progression for %gs", budget)
+	if fixedWork {
+		workModeLast = fmt.Sprintf("fixed work: each of the %d plain worker slots runs %d seeds of its progression", nworkers-nrace, eng.quickRuns)
+		if nrace > 0 {
+			workModeLast += fmt.Sprintf(", each of the %d race-detector slots %d", nrace, eng.quickRaceRuns)
+		}
+		workModeLast += fmt.Sprintf(" (the same runs on any machine; time limit %gs as a guard)", budget)
+		if cutShort > 0 {
+			workModeLast += fmt.Sprintf("; THE TIME LIMIT STOPPED %d SLOT(S) BEFORE THEIR QUOTA: this run explored less than a quick run normally does", cutShort)
+			fmt.Fprintf(os.Stderr, "check %s quick: the time limit of %gs stopped %d worker slot(s) before their quota (slow or busy machine); the verdict covers the runs made\n", prop, budget, cutShort)
+		}
+	}
 	writeEvidence(prop, eng, tier, base, agg.runs, len(agg.sigs), agg.steps, agg.ops, agg.simNs, agg.outcomes, agg.faults, agg.probes,
 		len(agg.pairs), len(agg.points), agg.samples, wall, buildSec, nworkers, budget, agg.violRuns, nUnknown, lines, ovHash, knownSigs)
 	fmt.Printf("check %s %s: runs=%d distinct_schedules=%d steps=%d viol_runs=%d unknown_groups=%d outcomes=%v wall=%.1fs\n",
@@ -1039,6 +1096,7 @@ func doReplay(prop string, eng *engineDef, path string) int {
 }
 
 var raceRunsLast int
+var workModeLast string
 
 func writeEvidence(prop string, eng *engineDef, tier string, seed int64, runs, distinct int, steps, ops, simNs int64,
 	outcomes, faults, probes map[string]int, pairs, points int, samples []result, wall, buildSec float64, nworkers int, budget float64,
@@ -1083,6 +1141,7 @@ func writeEvidence(prop string, eng *engineDef, tier string, seed int64, runs, d
 		"yield_points_reached":        points,
 		"workers":                     nworkers,
 		"explore_budget_s_per_worker": budget,
+		"work":                        workModeLast,
 		"build_s":                     buildSec,
 		"overlay_hash":                ovHash,
 		"real_components":             meta.real,
